@@ -839,6 +839,24 @@ func (e *CoreExtension) testSameAs(value interface{}, args ...interface{}) (bool
 	if len(args) == 0 {
 		return false, errors.New("same_as test requires an argument")
 	}
+
+	// Comparing two interface values that hold slices, maps or functions with
+	// == panics. Those are the same only if they are the same object.
+	a, b := reflect.ValueOf(value), reflect.ValueOf(args[0])
+	if a.IsValid() && b.IsValid() && !(a.Type().Comparable() && b.Type().Comparable()) {
+		if a.Type() != b.Type() {
+			return false, nil
+		}
+		switch a.Kind() {
+		case reflect.Slice:
+			return a.Pointer() == b.Pointer() && a.Len() == b.Len(), nil
+		case reflect.Map, reflect.Func:
+			return a.Pointer() == b.Pointer(), nil
+		}
+		// Arrays and structs with uncomparable parts: equal content
+		return reflect.DeepEqual(value, args[0]), nil
+	}
+
 	return value == args[0], nil
 }
 
